@@ -21,6 +21,7 @@ package quickfix
 //@ spec fint(m FieldMap, t Tag) mathint = intval(m.tagLookup[t][0].value)
 //@ spec msgok(msg *Message) bool = msg != nil && mapsok(msg) && fmvals(msg.Header.FieldMap) && fmvals(msg.Body.FieldMap) && fmvals(msg.Trailer.FieldMap)
 //@ spec isappmsg(msg *Message) bool = fhas(msg.Header.FieldMap, 35) && !isadmin(fval(msg.Header.FieldMap, 35))
+//@ spec possdup(msg *Message) bool = fhas(msg.Header.FieldMap, 43) && onebyte(fval(msg.Header.FieldMap, 43), 89)
 //@ spec isadminmsg(msg *Message) bool = fhas(msg.Header.FieldMap, 35) && isadmin(fval(msg.Header.FieldMap, 35))
 //@ spec isadmin(m []byte) bool = len(m) == 1 && (m[0] == 48 || m[0] == 65 || m[0] == 49 || m[0] == 50 || m[0] == 51 || m[0] == 52 || m[0] == 53)
 
@@ -575,7 +576,7 @@ package quickfix
 //@   ensures @stash0 rej is targetTooHigh && result is resendState ==> unbox(result, resendState).messageStash != nil
 //@   ensures @stash1 rej is targetTooHigh && result is resendState ==> has(unbox(result, resendState).messageStash, unbox(rej, targetTooHigh).ReceivedTarget)
 //@   ensures @stash rej is targetTooHigh && result is resendState ==> has(unbox(result, resendState).messageStash, unbox(rej, targetTooHigh).ReceivedTarget) && unbox(result, resendState).messageStash[unbox(rej, targetTooHigh).ReceivedTarget] == msg
-//@   ensures @low rej is targetTooLow && session.store.#R == old(session.store.#R) ==> session.store.#T == old(session.store.#T)
+//@   ensures @low rej is targetTooLow && !old(possdup(msg)) && session.store.#R == old(session.store.#R) ==> session.store.#T == old(session.store.#T)
 //@   ensures @beginstring rej is incorrectBeginString && session.store.#R == old(session.store.#R) ==> session.store.#T == old(session.store.#T) && (result is logoutState || result is latentState)
 //@   ensures @identity !(rej is targetTooHigh) && !(rej is targetTooLow) && !(rej is incorrectBeginString) && (rejreasonof(rej) == 9 || rejreasonof(rej) == 10) && session.store.#R == old(session.store.#R) ==> session.store.#T == old(session.store.#T) && (result is logoutState || result is latentState)
 //@   ensures @consumed !(rej is targetTooHigh) && !(rej is targetTooLow) && !(rej is incorrectBeginString) && rejreasonof(rej) != 9 && rejreasonof(rej) != 10 && result is inSession && session.store.#R == old(session.store.#R) ==> session.store.#T == wrap64(old(session.store.#T) + 1)
@@ -590,6 +591,7 @@ package quickfix
 //@   ensures @mono (session.store.#T >= old(session.store.#T) && session.store.#R == old(session.store.#R)) || session.store.#R > old(session.store.#R)
 //@   ensures @nodup !old(fhas(msg.Header.FieldMap, 43)) ==> result is logoutState || result is latentState
 //@   ensures @dupno old(fhas(msg.Header.FieldMap, 43) && onebyte(fval(msg.Header.FieldMap, 43), 78)) ==> result is logoutState || result is latentState
+//@   ensures @noadvance !old(possdup(msg)) && session.store.#R == old(session.store.#R) ==> session.store.#T == old(session.store.#T)
 
 // common shape of a handler's result: at most one application message accepted, and then the expected number moved on
 // by exactly one; the expected number never moves backwards unless the store was reset
